@@ -209,6 +209,11 @@ func c15Child(a *ChildArgs) {
 				[]string{"users", "orders"}, []string{"id", "n", "uid"}, []string{"count", "lower"}},
 			{"lower-case-niladic", "select current_date , Current_Timestamp , localtime , a from t where b < session_user", []string{"t"}, []string{"a", "b"}, nil},
 			{"array-constructor", "SELECT ARRAY [ 1 , f ( a ) , ( SELECT z FROM q ) ] FROM t", []string{"t", "q"}, []string{"a", "z"}, []string{"f"}},
+			// names with three, four and five parts: the qualifiers are part of the name in every variant
+			{"many-part-names", "SELECT a FROM srv.db.sch.orders JOIN east.crm.dbo.customers ON a = b , west.crm.dbo.customers , db.sch.t3 WHERE c IN ( SELECT d FROM n1.n2.n3.n4.deep )",
+				[]string{"srv.db.sch.orders", "east.crm.dbo.customers", "west.crm.dbo.customers", "db.sch.t3", "n1.n2.n3.n4.deep"}, []string{"a", "b", "c", "d"}, nil},
+			// comma-separated FROM lists of plain tables, at the top and inside a sub-query and a CTE
+			{"from-comma-lists", "WITH w AS ( SELECT x FROM p1 , p2 , p3 ) SELECT a FROM t1 , t2 , w WHERE b IN ( SELECT c FROM u1 , u2 )", []string{"p1", "p2", "p3", "t1", "t2", "w", "u1", "u2"}, []string{"x", "a", "b", "c"}, nil},
 			// ordering by the alias of a select item (an output name, not a column reference)
 			{"order-by-alias", "SELECT a AS z , f ( b ) AS y FROM t ORDER BY z DESC , y", []string{"t"}, []string{"a", "b"}, []string{"f"}},
 			// names that merely fold to a value keyword under Unicode case rules are columns like any other
